@@ -58,14 +58,22 @@ func cmdRun(args []string) int {
 	panicV := fs.Bool("panic-violation", true, "uncaught panic is a violation")
 	goroutines := fs.Bool("goroutines", false, "goroutine mode")
 	overrides := fs.String("override", "", "target=harnessFunc,...")
+	extdir := fs.String("extdir", "", "load the harness package from this generated directory")
 	fs.Parse(args)
 	t0 := time.Now()
-	ov, _, err := harnessOverlay(*pkg, strings.Split(*files, ","))
-	if err != nil {
-		fmt.Fprintln(os.Stderr, err)
-		return 2
+	var ld *loaded
+	var err error
+	if *extdir != "" {
+		ld, err = loadProgramAt(*extdir, ".", nil)
+	} else {
+		var ov map[string][]byte
+		ov, _, err = harnessOverlay(*pkg, strings.Split(*files, ","))
+		if err != nil {
+			fmt.Fprintln(os.Stderr, err)
+			return 2
+		}
+		ld, err = loadProgram(*pkg, ov)
 	}
-	ld, err := loadProgram(*pkg, ov)
 	if err != nil {
 		fmt.Fprintln(os.Stderr, err)
 		return 2
